@@ -127,3 +127,40 @@ func TestC12Reg_SlashedDelegateTallies(t *testing.T) {
 		t.Fatalf("after slashing a delegate: %v", err)
 	}
 }
+
+// TestC12Reg_DaoPercentZeroWedge: the governance parameter space has a single field (daoRewardPercentage, valid range
+// 0..100). Set to 0 its protobuf encoding is empty, the state stores an empty value, and getParams treats an empty value
+// as "governance params empty": BeginBlock (FundCommitteeRewardPools -> GetBlockMintStats -> GetParamsGov) fails for
+// every following block. One approved change-parameter transaction wedges the chain for good.
+func TestC12Reg_DaoPercentZeroWedge(t *testing.T) {
+	g := cs.BuildGenesis(1, []cs.ValSpec{{Key: 0, OutputKey: -1, Stake: 1_000_000}, {Key: 1, OutputKey: -1, Stake: 1_000_000}},
+		[]cs.AcctSpec{{Kind: 0, Key: 0, Amount: 1_000_000}}, nil, nil)
+	c, err := cs.New(cs.Opts{Genesis: g})
+	if err != nil {
+		t.Fatal(err)
+	}
+	defer c.Close()
+	k := cs.OpKey(0)
+	val, _ := lib.NewAny(&lib.UInt64Wrapper{Value: 0})
+	tx, _, err := c.SignTx(k, &fsm.MessageChangeParameter{ParameterSpace: fsm.ParamSpaceGov, ParameterKey: fsm.ParamDAORewardPercentage, ParameterValue: val,
+		StartHeight: 0, EndHeight: 100, Signer: cs.Addr(k)}, 10000, 1, "")
+	if err != nil {
+		t.Fatal(err)
+	}
+	out, err := c.Block(cs.BlockSpec{Txs: [][]byte{tx}})
+	if err != nil || out.Err != nil {
+		t.Fatalf("block 1: %v %v", err, out.Err)
+	}
+	if len(out.Results.Failed) != 0 {
+		t.Fatalf("precondition: the parameter change should be accepted: %v", out.Results.Failed[0].Error)
+	}
+	for h := uint64(2); h <= 4; h++ {
+		out, err = c.Block(cs.BlockSpec{})
+		if err != nil {
+			t.Fatalf("block %d: %v", h, err)
+		}
+		if out.Err != nil {
+			t.Fatalf("WEDGE: after daoRewardPercentage=0 an empty block at height %d cannot be applied: %v", h, out.Err)
+		}
+	}
+}
